@@ -132,7 +132,8 @@ def withTimeZone (t : Zoned ζ) (z : ζ) : Zoned ζ := { t with zone := z }
 /-! ### `_unixtime_µs` / `_from_unixtime_µs` (ffi/datetime.rs), used by C23 -/
 
 /-- `Timestamp::as_microsecond`: nanoseconds divided by 1000, truncating toward zero -/
-def unixMicros (t : Zoned ζ) : Int := Int.tdiv t.instant 1000
+def unixMicros (t : Zoned ζ) : Int :=
+  if t.instant < 0 then -((-t.instant) / 1000) else t.instant / 1000
 
 def microMin : Int := unixSecMin * 1000000
 def microMax : Int := unixSecMax * 1000000 + 999999
